@@ -14,7 +14,8 @@ pub struct Call {
     /// destination / source start address modulo 16
     pub dalign: u8,
     pub salign: u8,
-    /// mixed-method runs: 0 = without replacement, 1 = with replacement, 2 = the run's own mode
+    /// mixed-method runs: 0 = without replacement, 1 = with replacement, 2 = the run's own mode,
+    /// 4..=7 = explicit sink and mode (4 + replacement + 2 x UTF-16 sink)
     pub method: u8,
 }
 
@@ -24,8 +25,16 @@ impl Call {
     }
     pub fn repl(&self, default: bool) -> bool {
         match self.method {
-            0 => false,
-            1 => true,
+            0 | 4 | 6 => false,
+            1 | 5 | 7 => true,
+            _ => default,
+        }
+    }
+    /// methods 4..=7 name the sink of the call too: 4/5 = UTF-8 slice, 6/7 = UTF-16 slice
+    pub fn sink(&self, default: Sink) -> Sink {
+        match self.method {
+            4 | 5 => Sink::Utf8,
+            6 | 7 => Sink::Utf16,
             _ => default,
         }
     }
@@ -94,6 +103,7 @@ pub fn run_decoder_calls(e: &Enc, bom: BomMode, sink: Sink, repl: bool, calls: &
     let mut dec = new_decoder(e, bom);
     let mut run = DecRun { toks: vec![], obs: vec![], finished: false, used: e.name, any_errors: false, total_read: 0, problems: vec![], panic: None };
     for (i, c) in calls.iter().enumerate() {
+        let sink = c.sink(sink);
         let fill = if sink == Sink::Str { c.fill & 0x7F } else { c.fill };
         let d = Dst { cap: c.cap, fill, align: c.dalign as usize, prior: None };
         let o = match with_aligned_src(&c.src, c.salign as usize, |s| call_decoder(&mut dec, sink, c.repl(repl), s, c.last, &d)) {
